@@ -1,7 +1,7 @@
 (* Proofs tying Model/C19Check.v (the executable C19 oracle) to Proofs/C19IntersectP.v. *)
 From Coq Require Import ZArith List Bool Lia PeanoNat.
 From FT Require Import Model.Base Model.Obs Model.C19Intersect Model.C19Compute Model.C19Check
-                       Proofs.ObsP Proofs.C19IntersectP.
+                       Proofs.ObsP Proofs.C19IntersectP Proofs.C19ComputeP.
 Import ListNotations.
 Open Scope Z_scope.
 
@@ -186,9 +186,19 @@ Qed.
 
 Lemma c19_model_holds c : c19_wf c = true -> holds c19_checker c (model c19_checker c) = true.
 Proof.
-  destruct c as [fs scheds|t u depth radix lat]; [|discriminate].
-  cbn [c19_wf holds model c19_checker c19_model c19_holds]. intros H.
-  apply andb_true_iff in H. destruct H as [Hfs Hs].
-  apply V_eqb_spec. f_equal. apply map_ext_in. intros lens Hin.
-  rewrite forallb_forall in Hs. apply sched_model_spec; [exact Hfs|exact (Hs lens Hin)].
+  destruct c as [fs scheds|t u depth radix lat].
+  - cbn [c19_wf holds model c19_checker c19_model c19_holds]. intros H.
+    apply andb_true_iff in H. destruct H as [Hfs Hs].
+    apply V_eqb_spec. f_equal. apply map_ext_in. intros lens Hin.
+    rewrite forallb_forall in Hs. apply sched_model_spec; [exact Hfs|exact (Hs lens Hin)].
+  - cbn [c19_wf holds model c19_checker c19_model c19_holds]. intros H.
+    apply andb_true_iff in H. destruct H as [H Hrad].
+    apply andb_true_iff in H. destruct H as [Hd Hsh].
+    rewrite <- (swaps_tree_values depth radix lat t u Hsh).
+    assert (Hr : radix_ok radix).
+    { destruct radix as [r|]; cbn [radix_ok]; [apply Z.leb_le; exact Hrad|exact I]. }
+    destruct lat as [l|].
+    + rewrite (swaps_tree_int depth radix l t Hr Hd). cbn [Vo]. rewrite !Z.eqb_refl. reflexivity.
+    + rewrite swaps_ref_N_eq. destruct (swaps_ref_N_total depth radix t Hr Hd) as [v Ev].
+      rewrite Ev. cbn [Vo]. rewrite !Z.eqb_refl. reflexivity.
 Qed.
